@@ -58,14 +58,14 @@ EXTRA = {
  "C07": (" + tagged-priority bulk probe + capacity histories in append pairs + E2-large receivers", " Which of several equal-ranking priorities extend / FromIterator / From<Vec> / append keep is checked with priorities whose Ord ignores a tag, for every size_hint; every append pair also runs with spare capacity on either side; receivers of 64..128 (..1025) elements; long batches (24, 48 pairs) naming items repeatedly." + TWIN),
  "C08": (" + for_each / rev().for_each after hand-advanced iter_mut, nth steps, E2-large", LARGE + TWIN),
  "C09": (" + by-value consumers (last, count, for_each, rev().for_each) after every mixed next/next_back prefix + E2-large", LARGE),
- "C10": ("", ""),
+ "C10": (" + consuming APIs resumed after the caught panic (sorted iterator, sorted vectors, into_iter, conversion) as fault-capable operations", " Faults are also injected inside into_sorted_iter().next()/next_back() (each call under its own catch_unwind, the iterator used again afterwards), the sorted vectors, into_iter, into_vec and the conversions."),
  "C11": (" + E2-large + roomy twin + E4 type matrix", LARGE + TWIN + TYPES),
  "C12": (" + nth steps with payload writes + E2-large + roomy twin + E4 type matrix (String items through &str)", LARGE + TWIN + TYPES),
  "C13": (" + by-value consumers (last, count, for_each, rev().for_each, find, rfind) after every mixed prefix + E2-large", LARGE),
  "C14": (" + target capacity histories in clone_from pairs + colliding hashers + E2-large + E4 type matrix", " clone_from also into targets with spare capacity / a longer past; equality under all-colliding and partially colliding hashers with different insertion orders; independently built queues up to 257 (2049) elements." + TYPES),
  "C15": (" + round trips of 4097 (..65537) elements + E4 type matrix", " Round trips of queues of 65..4097 (thorough ..65537) elements (beyond any preallocation cap)." + TYPES),
  "C16": (" + roomy twin + E4 type matrix", TWIN + TYPES),
- "C17": (" + E2-large with twin continuations", LARGE),
+ "C17": (" + E2-large with twin continuations + E4 type matrix", LARGE + TYPES),
  "C18": (" + partially colliding hasher + E2-large under all-colliding / fnv / RandomState", " A seventh hasher with four hash classes; == under colliding hashers with different insertion orders; large queues (40..128, thorough ..1025) with long repeated batches under three hashers."),
 }
 for k, (t, x) in EXTRA.items():
@@ -107,7 +107,7 @@ def main():
             "kind_free_text": "hand-rolled explicit-state model checker in Rust: the transition function is the crate itself (path dependency on /repo, rebuilt on every check), states are identified by the index tables read through the hook, oracle = reference map in lock-step; closed BFS to fixpoint (E1), seeded deep trees (E2), fault enumeration (E3), program enumerators; worker subprocess with abort capture",
         }],
         "checks": checks,
-        "notes": "Every check rebuilds the harness against /repo's working tree (cargo, offline). Exit 0 = held, 1 = VIOLATION line with a replay file, 2 = machinery problem (no verdict). known_findings.json lists fixed defects (7 'fix:' commits in /repo) and one open finding (D8, C08: references yielded by iter_mut outlive the iterator; printed as KNOWN-FINDING, exit 0). seeded/ holds 222 independently written property-breaking changes with the checks that report them (seeded/MATRIX.md).",
+        "notes": "Every check rebuilds the harness against /repo's working tree (cargo, offline). Exit 0 = held, 1 = VIOLATION line with a replay file, 2 = machinery problem (no verdict). known_findings.json lists fixed defects (7 'fix:' commits in /repo) and one open finding (D8, C08: references yielded by iter_mut outlive the iterator; printed as KNOWN-FINDING, exit 0). seeded/ holds 258 independently written property-breaking changes with the checks that report them (seeded/MATRIX.md).",
         "not_applicable": [{"property_id": k, "reason": v} for k, v in sorted(NOT_YET.items())],
     }
     json.dump(m, open("/verif/MANIFEST.json","w"), indent=1)
